@@ -40,6 +40,10 @@ type NetClient struct {
 	Net  *Net
 	From string
 	To   *Store
+	// InProcess: the store is called the way the single (proxy + store in one process) mode does it: no
+	// transport in between, the caller's context goes straight into the handler and nothing on the way looks at
+	// it, so a handler that is entered with a finished context decides itself what to answer.
+	InProcess bool
 }
 
 func (n *Net) Client(from string, to *Store) *NetClient { return &NetClient{Net: n, From: from, To: to} }
@@ -97,6 +101,29 @@ var errUnavailable = status.Error(codes.Unavailable, "simnet: store unavailable"
 // invoke runs handler on a task of the target node and returns when it finished, the node died or
 // ctx was cancelled.
 func (c *NetClient) invoke(ctx context.Context, method string, handler func(ctx context.Context)) error {
+	if c.InProcess {
+		c.next(method)
+		if !c.To.Loaded || !c.To.Node.Alive() {
+			return errUnavailable
+		}
+		done := false
+		task := c.To.Sim.GoOn(c.To.Node, func() {
+			handler(ctx)
+			done = true
+		})
+		me := verifsim.BeforeBlock(6)
+		select {
+		case <-task.DoneCh:
+		case <-c.To.Node.DeadCh():
+		}
+		verifsim.AfterBlock(me)
+		if !done {
+			c.Net.Stats["died_in_call"]++
+			return errUnavailable
+		}
+		c.Net.Stats["in_process_call"]++
+		return nil
+	}
 	_, lat1, lat2, fault := c.next(method)
 	if c.Net.Partitioned[c.To.Node.Name] || !c.To.Loaded || !c.To.Node.Alive() {
 		c.Net.Stats["unavailable"]++
